@@ -390,7 +390,10 @@ func c06ExpiresMeanwhile(r *core.Run, idx int, rng *rand.Rand) {
 	if err != nil {
 		return
 	}
+	// Counted, not judged: "bracket the current time" holds for the instant at which the handler looked at the clock,
+	// and where in its sequence of storage calls a handler does that is its own business (a handler that reads the
+	// signing key after its checks is as right as one that reads it before).
 	if late := call.T1.Add(-hold / 8).Sub(noa); late > time.Second {
-		r.Violate(core.Violation{Clause: "deviation_accepted", Class: c.label(), Reason: fmt.Sprintf("accepted (persisted and sent on to login) about %s after its NotOnOrAfter %s had passed: the window was checked before a storage call that took %s", late.Round(100*time.Millisecond), c.Req.NotOnOrAfter, hold), Workload: wl, Index: idx, Case: c.describe(), Observed: call.Describe()})
+		r.Count("accepted_although_the_window_closed_during_a_later_storage_call", 1)
 	}
 }
